@@ -105,7 +105,7 @@ def r14_1_2_5(prog, tab):
 def run(ctx):
     prog = ctx.prog("S")
     tab = load_tables("c14")
-    return r14_1_2_5(prog, tab) + [r14_3(prog, tab), r14_4(prog, tab)]
+    return r14_1_2_5(prog, tab) + [r14_3(prog, tab), r14_4(prog, tab), r14_6(prog, tab), r14_7(prog, tab)]
 
 
 def thorough(ctx):
@@ -316,4 +316,136 @@ def r14_4(prog, tab):
             else:
                 r.bad(f, key, "a return is reachable after the member decoder ran without the presence index having been set: "
                               "a failed or starved member is invisible to CHOICE_free (leak) or to the resumed decode", e["line"])
+    return r
+
+
+# ------------------------------------------------------------------------------------------ R14.6
+def r14_6(prog, tab, summ=None):
+    """A pointer kept in persistent storage (reached through a pointer: ctx->ptr, st->buf, *sptr, list->array[i]) that
+    is freed must not survive the function: on every path from the free to a return the same lvalue is assigned
+    (NULL or a new block), or the object holding it is itself freed or zeroed."""
+    from .c15 import must_pass
+    r = Rule("R14.6", "a freed pointer that lives in persistent storage is overwritten (or its holder released/zeroed) before the function returns", floor=30)
+    summ = summ or ownership.Summaries(prog, tab)
+    exc = {(x["rule"], x["function"], x["key"]): x["reason"] for x in tab.get("exceptions", [])}
+    for f in sorted(prog.funcs.values(), key=lambda f: f.key):
+        if common.is_random_fill(prog, f):
+            continue
+        for b, i, e in f.calls():
+            rel = summ.releases(e)
+            for ai in rel:
+                if ai >= len(e["args"]):
+                    continue
+                t = strip_casts(e["args"][ai]["tree"])
+                # persistent lvalue: member through a pointer, or *ptr, or array element through pointer
+                if not isinstance(t, list) or t[0] not in ("member", "un", "sub"):
+                    continue
+                if t[0] == "un" and t[1] != "*":
+                    continue
+                if t[0] == "member" and not any(n[0] == "member" and n[3] for n in walk(t)) and not any(n[0] == "un" and n[1] == "*" for n in walk(t)):
+                    continue     # field of a local object
+                key_text = tree_text(t)
+                base_vars = [n for n in walk(t) if n[0] == "var"]
+                if not base_vars:
+                    continue
+                holder_id = base_vars[0][1]
+                holder_text = tree_text(t[1]) if t[0] in ("member", "sub") else tree_text(t[2])
+
+                def settles(x, key_text=key_text, holder_id=holder_id, t=t):
+                    if x["k"] == "assign" and x.get("lhs_tree") is not None and tree_text(strip_casts(x["lhs_tree"])) == key_text and x.get("op") == "=":
+                        return True
+                    if x["k"] == "call":
+                        cal = x.get("callee")
+                        # the holder object is freed or zeroed, or the same pointer is given to a routine that resets it
+                        for aj in summ.releases(x):
+                            if aj < len(x["args"]):
+                                at = strip_casts(x["args"][aj]["tree"])
+                                if is_var(at) and at[1] == holder_id:
+                                    return True
+                                if tree_text(at) == tree_text(strip_casts(t[1] if t[0] in ("member", "sub") else t[2])):
+                                    return True
+                        if cal == "memset" and x["args"]:
+                            at = strip_casts(x["args"][0]["tree"])
+                            if any(n[0] == "var" and n[1] == holder_id for n in walk(at)):
+                                return True
+                    return False
+                key = "free(%s)" % key_text
+                bad = None
+                # index-stepping loops (free(arr[i]) for each i) reuse the lvalue text with a new index: the variable index
+                # changes, so only consider lvalues without a subscript by a variable that is modified
+                if t[0] == "sub" or any(n[0] == "sub" for n in walk(t)):
+                    r.ok(f, key, "array element freed in an element loop (the array itself is released or reset by the caller)", e["line"], nontrivial=False)
+                    continue
+                for rb, ri, re in f.returns():
+                    if rb.id not in f.reachable_from([b.id]):
+                        continue
+                    # from just after the free
+                    if any(settles(x) for x in b.ev[i + 1:]):
+                        continue
+                    okp = True
+                    for s_ in b.succs():
+                        if not must_pass(f, s_, rb.id, ri, settles):
+                            okp = False
+                    if b.id == rb.id:
+                        okp = any(settles(x) for x in b.ev[i + 1:ri])
+                    if not okp:
+                        bad = re
+                        break
+                if f.ret_type == "void" and not list(f.returns()):
+                    # falls off the end
+                    if not any(settles(x) for x in b.ev[i + 1:]) and not all(must_pass(f, s_, f.exit, 0, settles) for s_ in b.succs()):
+                        bad = {"line": None}
+                ek = ("R14.6", f.name, key)
+                if bad is None:
+                    r.ok(f, key, "the freed pointer is overwritten, or its holder released/zeroed, on every path to a return", e["line"])
+                elif ek in exc:
+                    r.exc(f, key, exc[ek], e["line"])
+                else:
+                    r.bad(f, key, "`%s` is freed here and still holds the stale address when the function returns at line %s: the next free or use "
+                                  "of the holder (e.g. the type's free function) hits freed memory" % (key_text, bad.get("line")), e["line"])
+    return r
+
+
+# ------------------------------------------------------------------------------------------ R14.7
+def r14_7(prog, tab):
+    """Where a disposal method is chosen from whether a structure pointer is NULL (caller-provided storage is reset,
+    storage allocated by the decoder is freed), the choice must be made before any call that can allocate into that
+    pointer: evaluated afterwards it always sees a non-NULL pointer and never frees what the decoder allocated."""
+    r = Rule("R14.7", "the caller-owned-or-allocated snapshot that selects a disposal method is taken before the decoder can allocate", floor=1)
+    for f in sorted(prog.funcs.values(), key=lambda f: f.key):
+        for b, i, e in f.events():
+            trees = []
+            if e["k"] == "call":
+                trees = [a.get("tree") for a in e.get("args", [])]
+            elif e["k"] in ("assign", "decl"):
+                trees = [(e.get("rhs") or e.get("init") or {}).get("tree")]
+            for t in trees:
+                for n in walk(t):
+                    if n[0] != "cond":
+                        continue
+                    arms = [strip_casts(n[2]), strip_casts(n[3])]
+                    if not all(isinstance(a, list) and a and a[0] == "enum" and a[1].startswith("ASFM_") for a in arms):
+                        continue
+                    cvars = {x[1] for x in walk(n[1]) if x[0] == "var"}
+                    key = "method-by:%s" % tree_text(n[1])
+                    # a call that receives one of those variables (a pointer to the pointer) and can reach this evaluation
+                    bad = None
+                    for cb, ci, ce in f.calls():
+                        if (cb.id, ci) == (b.id, i):
+                            continue
+                        passes = any(is_var(a.get("tree")) and strip_casts(a["tree"])[1] in cvars for a in ce.get("args", []))
+                        if not passes:
+                            continue
+                        if ce.get("callee") in ("free", "memset") or (ce.get("slot") == "free_struct"):
+                            continue
+                        reach = (cb.id == b.id and ci < i) or (cb.id != b.id and b.id in f.reachable_from(cb.succs()))
+                        if reach:
+                            bad = ce
+                            break
+                    if bad is None:
+                        r.ok(f, key, "the method is selected before any call that could allocate into the tested pointer", e.get("line"))
+                    else:
+                        r.bad(f, key, "the disposal method is selected by `%s` after the call at line %s received that pointer and may have allocated "
+                                      "into it: the test then always sees non-NULL, the freshly allocated structure is only reset, and the pointer to it is dropped" % (
+                                          tree_text(n[1]), bad.get("line")), e.get("line"))
     return r
